@@ -428,9 +428,14 @@ impl DMatrix {
   /// nalgebra try_svd: `eps` is the CONVERGENCE TOLERANCE of the QR iteration (not a truncation threshold) and `max_niter` its
   /// budget (0 = unlimited); None if it does not converge. The factors are the decomposition of the input only up to
   /// that tolerance: exactness is promised only for a tolerance at machine epsilon.
+  /// TERMINATION (C08): with `max_niter == 0` the iteration is unbounded and stops only when an off-diagonal entry falls below
+  /// `eps` relative to its neighbours; that it ever does is ASSUMED only for the tolerance nalgebra's own `svd()` uses
+  /// (5 * machine epsilon, svd.rs `new`) or a looser one. A tighter tolerance (0, NaN, anything below) with an unbounded
+  /// budget need not return -- observed on the real code -- so it is a precondition here.
   #[verifier::external_body]
   pub fn try_svd(self, compute_u: bool, compute_v: bool, eps: Sc, max_niter: usize) -> (r: Option<SVD>)
     requires self.ok(), self@.r >= 1, self@.c >= 1, self.fin(),
+             max_niter >= 1 || (eps.fin() && eps@ >= 5real * EPS()),
     ensures r matches Some(s) ==> ((compute_u && compute_v && 0real <= eps@ <= EPS()) ==> s.is_of(self@)
               && svd_ok(self@, svd_u(self@), svd_s(self@), svd_vt(self@))),
   { unimplemented!() }
@@ -444,6 +449,21 @@ impl DMatrix {
   { unimplemented!() }
 }
 impl SVD {
+  /// nalgebra `SVD::try_new(matrix, compute_u, compute_v, eps, max_niter)` (svd.rs): what `Matrix::try_svd` calls
+  #[verifier::external_body]
+  pub fn try_new(matrix: DMatrix, compute_u: bool, compute_v: bool, eps: Sc, max_niter: usize) -> (r: Option<SVD>)
+    requires matrix.ok(), matrix@.r >= 1, matrix@.c >= 1, matrix.fin(),
+             max_niter >= 1 || (eps.fin() && eps@ >= 5real * EPS()),
+    ensures r matches Some(s) ==> ((compute_u && compute_v && 0real <= eps@ <= EPS()) ==> s.is_of(matrix@)
+              && svd_ok(matrix@, svd_u(matrix@), svd_s(matrix@), svd_vt(matrix@))),
+  { unimplemented!() }
+  /// nalgebra `SVD::new(matrix, compute_u, compute_v)`: what `Matrix::svd` calls
+  #[verifier::external_body]
+  pub fn new(matrix: DMatrix, compute_u: bool, compute_v: bool) -> (r: SVD)
+    requires matrix.ok(), matrix@.r >= 1, matrix@.c >= 1, matrix.fin(),
+    ensures compute_u && compute_v ==> r.is_of(matrix@),
+            svd_ok(matrix@, svd_u(matrix@), svd_s(matrix@), svd_vt(matrix@)),
+  { unimplemented!() }
   /// svd.rs pseudo_inverse: v_t^T diag(1/s_i if s_i > eps else 0) u^T
   #[verifier::external_body]
   pub fn pseudo_inverse(self, eps: Sc) -> (r: Result<DMatrix, &'static str>)
